@@ -196,6 +196,11 @@ def gen_interest_param(rng):
     p = InterestParam()
     p.can_be_prefix = rng.random() < 0.4
     p.must_be_fresh = rng.random() < 0.4
+    if rng.random() < 0.15:
+        # flags given as integers / None instead of bool (ordinary Python truthiness; what counts is that the sizing pass and the
+        # writing pass agree and that the flag read back is the truth value given)
+        p.can_be_prefix = rng.choice([1, 0, None, 2])
+        p.must_be_fresh = rng.choice([1, 0, None, 1])
     p.nonce = rng.choice([None, 0, 1, 0xFFFFFFFF, rng.getrandbits(32)])
     p.lifetime = rng.choice([None, 0, 1, 255, 256, 4000, 65535, 65536, 2**32 - 1, 2**32, 2**64 - 1, rng.getrandbits(rng.randint(1, 63))])
     p.hop_limit = rng.choice([None, None, 0, 1, 255, rng.randrange(256)])
@@ -203,8 +208,10 @@ def gen_interest_param(rng):
     if rng.random() < 0.3:
         for _ in range(rng.randint(1, 3)):
             hints.append(gen.simple_name(rng, 1, 3))
+    if hints and rng.random() < 0.35:
+        hints.insert(rng.randrange(len(hints) + 1), list(rng.choice(hints)))     # the same delegation listed twice (kept twice)
     p.forwarding_hint = [name_form(rng, h, one_shot=False)[0] for h in hints]
-    d.update(can_be_prefix=p.can_be_prefix, must_be_fresh=p.must_be_fresh, nonce=p.nonce, lifetime=p.lifetime,
+    d.update(can_be_prefix=bool(p.can_be_prefix), must_be_fresh=bool(p.must_be_fresh), nonce=p.nonce, lifetime=p.lifetime,
              hop_limit=p.hop_limit, fwd_hint=hints)
     return p, d
 
